@@ -361,7 +361,7 @@ class AtomicTracker(ConstTracker):
         failv = None
         if c.k == "BinaryOperator" and c.op in ("==", "!="):
             a, b = c.kids[0].strip(), c.kids[1].strip()
-            if a.k == "BinaryOperator" and a.op == "=":
+            while a.k == "BinaryOperator" and a.op == "=":    # also `p = q = calloc(..)`
                 a = a.kids[1].strip()
             if a.k == "CallExpr":
                 call = a
